@@ -213,18 +213,19 @@ impl PathSliceList {
                 write!(w, r#":"#)?;
                 false_br.write_lvalue_path(w, scopes, model)?;
             } else {
-                // (the branch may itself be a conditional: `.concat` must apply to its result)
-                write!(w, r#"{}?("#, cond)?;
-                if true_br.write_lvalue_path(w, scopes, model)?.is_some() {
-                    write!(w, r#").concat("#)?;
-                    br(w)?;
+                // (the branch may itself be a conditional, and its path may be `null` at run time)
+                write!(w, r#"{}?"#, cond)?;
+                for (i, branch) in [true_br, false_br].into_iter().enumerate() {
+                    if i > 0 {
+                        write!(w, r#":"#)?;
+                    }
+                    write!(w, r#"((p,s)=>p&&p.concat(s))("#)?;
+                    if branch.write_lvalue_path(w, scopes, model)?.is_some() {
+                        write!(w, r#","#)?;
+                        br(w)?;
+                    }
+                    write!(w, r#")"#)?;
                 }
-                write!(w, r#"):("#)?;
-                if false_br.write_lvalue_path(w, scopes, model)?.is_some() {
-                    write!(w, r#").concat("#)?;
-                    br(w)?;
-                }
-                write!(w, r#")"#)?;
             }
         } else {
             br(w)?;
